@@ -90,9 +90,13 @@ class FakeConn:
         self.events = []
 
     def write(self, data):
-        if self.fail_write:
+        flag = getattr(self, "fail_flag", None)
+        if self.fail_write or (flag is not None and self.w.is_true(flag)):
             from symex.core import prog
             raise prog(OSError("write failed"))
+        if self.closed:
+            from symex.core import prog
+            raise prog(OSError("write on a closed connection"))  # like serial / socket objects
         self.written.append((data, self.closed))
 
     def close(self):
@@ -585,3 +589,25 @@ class Recorder:
     def __call__(self, data):
         self.sink.append(data)
         return None
+
+
+class Recorder0:
+    """Callable without arguments that records its invocation."""
+
+    __symex_native__ = True
+
+    def __init__(self, sink):
+        self.sink = sink
+
+    def __call__(self):
+        self.sink.append(1)
+
+
+class Recorder2:
+    __symex_native__ = True
+
+    def __init__(self, sink):
+        self.sink = sink
+
+    def __call__(self, *args):
+        self.sink.append(args)
